@@ -90,6 +90,56 @@ theorem gen_w3j_out_of_range_zeros (ws : Nat) (size j2 j3 m2 m3 : Int) (st : φ)
   · rw [zeroed_cell, if_pos ⟨rfl, h1, h2⟩]
   · rw [zeroed_cell, if_neg (by intro ⟨c1, c2, c3⟩; rcases h1 with h1 | h1 | h1 <;> [exact h1 c1; omega; omega])]
 
+/-! ### the front ends `Wigner3j` and `clebsch_gordan`, from the source: exactly 0 whenever a selection rule fails -/
+
+/-- `m_1 + m_2 + m_3 ≠ 0`: the literal `0.0` is returned (nothing else happens: the calculator is not even constructed) -/
+theorem gen_wigner3j_m_sum (res ws : Nat) (j1 j2 j3 m1 m2 m3 : Int) (st : φ) (h : m1 + m2 + m3 ≠ 0) :
+    Gen.Wigner3j (α := α) res ws j1 j2 j3 m1 m2 m3 st = fwr (α := α) st res 0 (Scalar.ofInt (0 : Int) : α) := by
+  unfold Gen.Wigner3j
+  simp -zeta only [h, ne_eq, not_false_eq_true, if_true]
+  rfl
+
+/-- some `|m_i| > j_i`: the literal `0.0` -/
+theorem gen_wigner3j_m_range (res ws : Nat) (j1 j2 j3 m1 m2 m3 : Int) (st : φ) (h0 : m1 + m2 + m3 = 0)
+    (h : ((Int.natAbs m1 : Nat) : Int) > j1 ∨ ((Int.natAbs m2 : Nat) : Int) > j2 ∨ ((Int.natAbs m3 : Nat) : Int) > j3) :
+    Gen.Wigner3j (α := α) res ws j1 j2 j3 m1 m2 m3 st = fwr (α := α) st res 0 (Scalar.ofInt (0 : Int) : α) := by
+  unfold Gen.Wigner3j
+  have h0' : ¬ (m1 + m2 + m3 ≠ 0) := by omega
+  simp -zeta only [h0', h, if_true, if_false]
+  rfl
+
+/-- the triangle inequality fails (the largest `j` exceeds the sum of the other two): the literal `0.0`, for each of the three cyclic
+    arrangements the function brings the largest `j` to the front with -/
+theorem gen_wigner3j_triangle (res ws : Nat) (j1 j2 j3 m1 m2 m3 : Int) (st : φ) (h0 : m1 + m2 + m3 = 0)
+    (h : ¬ (((Int.natAbs m1 : Nat) : Int) > j1 ∨ ((Int.natAbs m2 : Nat) : Int) > j2 ∨ ((Int.natAbs m3 : Nat) : Int) > j3))
+    (ht : 2 * max (max j1 j2) j3 > j1 + j2 + j3) :
+    Gen.Wigner3j (α := α) res ws j1 j2 j3 m1 m2 m3 st = fwr (α := α) st res 0 (Scalar.ofInt (0 : Int) : α) := by
+  unfold Gen.Wigner3j
+  have h0' : ¬ (m1 + m2 + m3 ≠ 0) := by omega
+  simp -zeta only [h0', h, if_false]
+  by_cases c1 : j1 = max (max j1 j2) j3
+  · have hm : max (max j1 j2) j3 = j1 := c1.symm
+    have c : j1 > j2 + j3 := by omega
+    simp [hm, c]
+  · by_cases c2 : j2 = max (max j1 j2) j3
+    · have hm : max (max j1 j2) j3 = j2 := c2.symm
+      have ne : j1 ≠ j2 := fun e => c1 (by omega)
+      have c : j2 > j3 + j1 := by omega
+      simp [hm, ne, c]
+    · have hm : max (max j1 j2) j3 = j3 := by omega
+      have ne1 : j1 ≠ j3 := fun e => c1 (by omega)
+      have ne2 : j2 ≠ j3 := fun e => c2 (by omega)
+      have c : j3 > j1 + j2 := by omega
+      simp [hm, ne1, ne2, c]
+
+/-- `clebsch_gordan` with `m_1 + m_2 ≠ m_3`: the finite factor `(-1)^(j_1-j_2+m_3) √(2 j_3+1)` times the literal `0.0` -/
+theorem gen_cg_m_sum (res ws : Nat) (j1 m1 j2 m2 j3 m3 : Int) (st : φ) (h : m1 + m2 ≠ m3) :
+    Gen.clebsch_gordan (α := α) res ws j1 m1 j2 m2 j3 m3 st
+      = ((Scalar.ofInt ((-1 : Int) ^ (Int.natAbs ((j1 - j2) + m3))) : α) *. (Scalar.sqrt (Scalar.ofInt (((2 : Int) * j3) + (1 : Int)) : α)))
+          *. (Scalar.ofInt (0 : Int) : α) := by
+  unfold Gen.clebsch_gordan
+  rw [gen_wigner3j_m_sum res ws j1 j2 j3 m1 m2 (-m3) st (by omega), GenFill.frd_fwr_same]
+
 /-- the premises are met, e.g. by `m2 = 3 > j2 = 2` -/
 example : (((Int.natAbs (3 : Int) : Nat) : Int) > (2 : Int) ∨ ((Int.natAbs (0 : Int) : Nat) : Int) > (1 : Int))
     ∨ (2 : Int) + 1 < max ((Int.natAbs ((2 : Int) - 1) : Nat) : Int) ((Int.natAbs ((3 : Int) + 0) : Nat) : Int) := by decide
